@@ -12,6 +12,10 @@ class LE(Exception):
     pass
 
 
+class Runaway(Exception):
+    """the loop visited far more items than any model run can (step budget of the simulated loop body)"""
+
+
 def reset(script, target):
     del LOG[:]
     SCRIPT.clear()
@@ -41,6 +45,8 @@ def hook(site, item):
         return 0
     n = COUNT[0]
     COUNT[0] = n + 1
+    if n > 600:
+        raise Runaway(n)
     LOG.append(("visit", nrm(item)))
     act = SCRIPT.get(n)
     if act is None:
